@@ -515,15 +515,31 @@ func c19R5(c *Ctx) {
 			name string
 			set  kit.FuncSet
 		}{{"os.CreateTemp", Set(createTemp)}, {"tmp.Write", m("Write")}, {"tmp.Sync", m("Sync")}, {"tmp.Close", m("Close")}} {
-			calls := kit.CallsTo(fn, st.set)
+			// the step itself, or a helper whose success implies the step's success
+			calls := kit.CallsToOK(fn, st.set, 2)
 			if len(calls) == 0 {
 				c.R.Fail(r, "atomicfile.WriteFile: "+st.name, c.Pos(fn.Pos()), "step `"+st.name+"` not found")
 				continue
 			}
 			c.Dominated(r, "atomicfile.WriteFile: "+st.name+"[ok] -> os.Rename", renames, okGates(calls, ""), "the success edge of "+st.name)
 		}
-		// write before sync before the checked close
-		c.Dominated(r, "atomicfile.WriteFile: tmp.Write[ok] -> tmp.Sync", asInstrs(kit.CallsTo(fn, m("Sync"))), okGates(kit.CallsTo(fn, m("Write")), ""), "the success edge of tmp.Write")
+		// write before sync before the checked close — in whichever function performs the sync
+		var syncIn func(f *ssa.Function, depth int)
+		syncIn = func(f *ssa.Function, depth int) {
+			if direct := kit.CallsTo(f, m("Sync")); len(direct) > 0 {
+				c.Dominated(r, "atomicfile.WriteFile: tmp.Write[ok] -> tmp.Sync", asInstrs(direct), okGates(kit.CallsToOK(f, m("Write"), 1), ""), "the success edge of tmp.Write")
+				return
+			}
+			if depth <= 0 {
+				return
+			}
+			for _, call := range kit.CallsToOK(f, m("Sync"), 2) {
+				if h := call.Common().StaticCallee(); h != nil {
+					syncIn(h, depth-1)
+				}
+			}
+		}
+		syncIn(fn, 2)
 		dir := c.ExtFunc(r, "path/filepath", "Dir")
 		for _, call := range kit.CallsTo(fn, Set(createTemp)) {
 			a := call.Common().Args
